@@ -72,7 +72,7 @@ func shiftOf(v ssa.Value) (ssa.Value, int64, bool) {
 }
 
 func init() {
-	register(&Rule{ID: "T4.writer-lens", Min: 16,
+	register(&Rule{ID: "T4.writer-lens", Min: 11,
 		Text: "in every switch on a descriptor's T in the scalar writers (appendAny and the inlined copy in appendStruct): the case set equals the key set of simpleTypes; per kind the bytes emitted equal the protocol width and the load size equals the Go size of that kind (ENUM: 8-byte load narrowed to 32 bits; STRING: 4-byte length of the loaded string then its bytes); the switch is entered only under SimpleType and the other edge dispatches through t.AppendFunc(t, b, p); both copies agree",
 		Run:  ruleT4})
 	register(&Rule{ID: "T7.reader-lens", Min: 7,
@@ -174,17 +174,37 @@ func ruleT4(c *Ctx) []Ob {
 		s.undec("simpleTypes", "-", "table not evaluable")
 		return s.obs
 	}
-	for _, fname := range []string{"appendAny", "appendStruct"} {
-		fn := c.SSA[pkgReflect].Func(fname)
-		if fn == nil {
-			s.bad(fname, "-", "function not found")
+	// (1) scalar switches: functions that emit under a switch on a kind (a descriptor's T, or a ttype parameter)
+	type swInfo struct {
+		fn      *ssa.Function
+		subject string
+		byParam *ssa.Parameter
+	}
+	var switches []swInfo
+	for _, fn := range c.ModuleFuncs(pkgReflect) {
+		if bufParam(fn) == nil {
 			continue
 		}
 		ei := analyseEmits(fn)
 		byKind := map[int64][]*Emit{}
 		subject := ""
+		var tparam *ssa.Parameter
+		for _, prm := range fn.Params {
+			if namedOf(prm.Type()) == "ttype" {
+				tparam = prm
+			}
+		}
 		for _, e := range ei.events {
+			if e.Kind == "dyn" || e.Kind == "call" {
+				continue
+			}
 			cs, subj := caseSet(e.Instr.Block(), ".T")
+			if cs == nil && tparam != nil {
+				cs, subj = caseSet(e.Instr.Block(), tparam.Name())
+				if subj != tparam.Name() {
+					cs = nil
+				}
+			}
 			if cs == nil {
 				continue
 			}
@@ -193,8 +213,15 @@ func ruleT4(c *Ctx) []Ob {
 				byKind[cv] = append(byKind[cv], e)
 			}
 		}
-		desc := strings.TrimSuffix(subject, ".T")
-		// pointer operand: phi(p, *(*unsafe.Pointer)(p)) chased under desc.IsPointer (PTR-CHASE checks the guard)
+		if len(byKind) < 3 {
+			continue // not a kind switch over scalars (e.g. a header routine)
+		}
+		fname := shortFn(fn)
+		sw := swInfo{fn: fn, subject: subject}
+		if tparam != nil && subject == tparam.Name() {
+			sw.byParam = tparam
+		}
+		switches = append(switches, sw)
 		ptrOK := func(v ssa.Value) bool {
 			rs := ptrRoots(v)
 			for _, r := range rs {
@@ -204,7 +231,6 @@ func ruleT4(c *Ctx) []Ob {
 			}
 			return len(rs) > 0
 		}
-		// case set == simpleTypes
 		keys := map[int64]bool{}
 		for kk := range simple {
 			keys[kk] = true
@@ -232,40 +258,107 @@ func ruleT4(c *Ctx) []Ob {
 				s.check(len(ps) == 0, key, c.InstrPos(evs[0].Instr), fmt.Sprintf("%s: protocol width and Go load size agree", kn), strings.Join(ps, "; "))
 			}
 		}
-		// switch entered under SimpleType; else edge dispatches through desc.AppendFunc(desc, b, p)
-		for kk, evs := range byKind {
-			_ = kk
-			okGuard := false
-			for _, cd := range domConds(evs[0].Instr.Block()) {
-				if recv, _, f, ok := fieldOf(cd.V); ok && f == "SimpleType" && cd.Truth && path(recv) == desc {
-					okGuard = true
-				}
+	}
+	if len(switches) == 0 {
+		s.bad("scalar-switch", "-", "no scalar kind switch found in the encoder")
+		return s.obs
+	}
+	isSwitchFn := func(f *ssa.Function) *swInfo {
+		for i := range switches {
+			if switches[i].fn == f {
+				return &switches[i]
 			}
-			if !okGuard {
-				s.bad(fname+":simple-guard", c.InstrPos(evs[0].Instr), "scalar switch is not under "+desc+".SimpleType")
-			}
-			break
 		}
-		nDyn := 0
-		for _, e := range ei.events {
-			if e.Kind != "dyn" {
+		return nil
+	}
+	// (2) dispatch sites: every branch on X.SimpleType in a writer: true edge = scalar switch on X.T (inline or through a
+	// switch helper given X.T), false edge = X.AppendFunc(X, b, p)
+	nSites := 0
+	for _, fn := range c.ModuleFuncs(pkgReflect) {
+		if bufParam(fn) == nil {
+			continue
+		}
+		ei := analyseEmits(fn)
+		for _, b := range fn.Blocks {
+			iff, ok := b.Instrs[len(b.Instrs)-1].(*ssa.If)
+			if !ok {
 				continue
 			}
-			nDyn++
-			fv := path(e.Call.Call.Value)
-			args := e.Call.Call.Args
-			good := fv == desc+".AppendFunc" && len(args) == 3 && path(args[0]) == desc
-			under := false
-			for _, cd := range domConds(e.Instr.Block()) {
-				if recv, _, f, ok := fieldOf(cd.V); ok && f == "SimpleType" && !cd.Truth && path(recv) == desc {
-					under = true
+			cond := iff.Cond
+			neg := false
+			if u, ok := cond.(*ssa.UnOp); ok && u.Op == token.NOT {
+				cond, neg = u.X, true
+			}
+			recv, typ, f, ok := fieldOf(cond)
+			if !ok || typ != "tType" || f != "SimpleType" {
+				continue
+			}
+			nSites++
+			desc := path(recv)
+			tIdx, fIdx := 0, 1
+			if neg {
+				tIdx, fIdx = 1, 0
+			}
+			fname := shortFn(fn)
+			// simple edge
+			okSimple := false
+			for _, e := range ei.events {
+				eb := e.Instr.Block()
+				if !(eb == b.Succs[tIdx] || b.Succs[tIdx].Dominates(eb)) || !edgeDominates(b, tIdx, eb) {
+					continue
+				}
+				if cs, subj := caseSet(eb, ".T"); cs != nil && subj == desc+".T" {
+					okSimple = true
+				}
+				if e.Kind == "call" {
+					if sw := isSwitchFn(e.Callee); sw != nil && sw.byParam != nil {
+						for i, prm := range e.Callee.Params {
+							if prm == sw.byParam && i < len(e.Call.Call.Args) && path(e.Call.Call.Args[i]) == desc+".T" {
+								okSimple = true
+							}
+						}
+					}
 				}
 			}
-			s.check(good && under, fname+":dispatch", c.InstrPos(e.Instr), "non-scalar kinds go through "+desc+".AppendFunc("+desc+", b, p)",
-				"dispatch is "+fv+"("+path(args[0])+", ...) / not on the !SimpleType edge")
+			s.check(okSimple, fname+":simple-edge", c.InstrPos(iff), "scalars of "+desc+" go through the kind switch on "+desc+".T", "the SimpleType edge does not reach a scalar switch on "+desc+".T")
+			// dispatch edge
+			okDyn := false
+			for _, e := range ei.events {
+				eb := e.Instr.Block()
+				if e.Kind != "dyn" || !edgeDominates(b, fIdx, eb) {
+					continue
+				}
+				args := e.Call.Call.Args
+				if path(e.Call.Call.Value) == desc+".AppendFunc" && len(args) == 3 && path(args[0]) == desc {
+					okDyn = true
+				}
+			}
+			s.check(okDyn, fname+":dispatch", c.InstrPos(iff), "non-scalar kinds go through "+desc+".AppendFunc("+desc+", b, p)", "the !SimpleType edge does not dispatch through "+desc+".AppendFunc("+desc+", ...)")
 		}
-		if nDyn == 0 {
-			s.bad(fname+":dispatch", c.Pos(fn.Pos()), "no dispatch through AppendFunc for non-scalar kinds")
+	}
+	if nSites < 2 {
+		s.bad("dispatch-sites", "-", fmt.Sprintf("expected the scalar/non-scalar dispatch in the struct writer and in the element writer, found %d", nSites))
+	}
+	// a switch keyed by a ttype parameter is only correct when called with a descriptor's T and that descriptor's value pointer
+	for _, sw := range switches {
+		if sw.byParam == nil {
+			// inline switch on X.T: must be under X.SimpleType
+			desc := strings.TrimSuffix(sw.subject, ".T")
+			okGuard := false
+			for _, b := range sw.fn.Blocks {
+				if cs, subj := caseSet(b, ".T"); cs != nil && subj == sw.subject {
+					for _, cd := range domConds(b) {
+						cv, truth := cd.V, cd.Truth
+						if u, ok := cv.(*ssa.UnOp); ok && u.Op == token.NOT {
+							cv, truth = u.X, !truth
+						}
+						if recv, _, f, ok := fieldOf(cv); ok && f == "SimpleType" && truth && path(recv) == desc {
+							okGuard = true
+						}
+					}
+				}
+			}
+			s.check(okGuard, shortFn(sw.fn)+":simple-guard", c.Pos(sw.fn.Pos()), "scalar switch is under "+desc+".SimpleType", "scalar switch is not under "+desc+".SimpleType")
 		}
 	}
 	return s.obs
